@@ -130,6 +130,9 @@ def h_roundtrip(S, B):
         S.assume(False, "sets hold concrete hashable leaves in this harness")
     leaf = make_leaf(S, lk)
     v = wrap(wk, leaf)
+    # serpent's documented option for bytes (literal instead of base64 dict), switched at run time like any config item
+    bytes_literal = sname == "serpent" and lk == "bytes" and S.flag("config.SERPENT_BYTES_REPR")
+    config.SERPENT_BYTES_REPR = bytes_literal
     r_args = attempt(lambda: ser.loadsCall(ser.dumpsCall("obj", "method", (v,), {"kw": v})))
     r_res = attempt(lambda: ser.loads(ser.dumps(v)))
     # the two other call forms the client sends: a batch (kwargs is None, the calls are the positional arguments)
@@ -192,7 +195,10 @@ def h_roundtrip(S, B):
     if sname == "marshal" and wk in ("tuple", "set", "frozenset", "mixed-set") and lk in CORE_LEAVES:
         S.check("marshal-keeps-tuples-and-sets", same(v_res, v))
     if sname == "serpent" and lk == "bytes" and wk == "bare":
-        S.check("serpent-bytes-arrive-as-base64-dict", isinstance(v_res, dict) and v_res.get("encoding") == "base64")
+        if bytes_literal:
+            S.check("serpent-bytes-arrive-as-bytes-with-the-bytes-option", isinstance(v_res, bytes) and v_res == leaf)
+        else:
+            S.check("serpent-bytes-arrive-as-base64-dict", isinstance(v_res, dict) and v_res.get("encoding") == "base64")
     S.observe("outcome", (r_args[0], r_res[0], leaf_repr(v_res)))
 
 
